@@ -127,7 +127,7 @@ class RefSolver(object):
     def out(self, text, cmd=None, extra=None):
         # log first: whoever reads the reply must find the log entry
         if self.log:
-            rec = {"cmd": cmd, "reply": text}
+            rec = {"cmd": cmd, "reply": text, "t": time.time()}
             if extra:
                 rec.update(extra)
             self.log.write(json.dumps(rec, default=str) + "\n")
